@@ -7,12 +7,14 @@ root = os.path.dirname(os.path.abspath(__file__))
 props = [json.loads(l) for l in open(os.path.join(root, "properties.jsonl"))]
 na_path = os.path.join(root, "not_applicable.json")
 na_reasons = json.load(open(na_path)) if os.path.exists(na_path) else {}
+claimed_path = os.path.join(root, "claimed.txt")
+claimed = set(open(claimed_path).read().split()) if os.path.exists(claimed_path) else None
 checks, na = [], []
 for p in props:
     pid = p["id"]
     meta = os.path.join(root, "checks", pid + ".meta.json")
     script = os.path.join(root, "checks", pid + ".py")
-    if os.path.exists(meta) and os.path.exists(script):
+    if os.path.exists(meta) and os.path.exists(script) and (claimed is None or pid in claimed):
         m = json.load(open(meta))
         c = {"property_id": pid,
              "quick_cmd": "./check %s --tier quick" % pid,
